@@ -20,7 +20,7 @@ package c09
 // decided on the quiescent end state (two in-flight streams on one ping-pong
 // connection) and at lease time when the other stream is already registered.
 //
-// Scenarios avoid the events whose sequential defects are already recorded
+// The default scenarios avoid the events whose sequential defects were recorded when they were written
 // (local reset, go-away, garbage, pool Close, request-threshold overflow), so
 // that a violation here needs an interleaving.
 
@@ -92,6 +92,25 @@ func DefaultScenarios() []Scenario {
 	}
 }
 
+// DoomedScenarios: one thread ends a stream on a connection that must not be reused (local reset /
+// timeout, go-away, Shutdown-marked connection) while another thread leases. goAwayInReply: the
+// protocol announces go-away in a response (HTTP/1 "Connection: close") rather than in a frame.
+func DoomedScenarios(goAwayInReply bool) []Scenario {
+	out := []Scenario{
+		{"lease vs local reset of the only stream (max 2)", Cfg{2, 0}, []string{"new"}, [][]string{{"lreset:0"}, {"new"}}},
+		{"lease vs local reset, one more idle connection (max 2)", Cfg{2, 0}, []string{"new", "new", "reply:1"}, [][]string{{"lreset:0"}, {"new"}}},
+		// the connection that answers was marked by Shutdown while idle (HTTP/1: closeConn) and leased again:
+		// the statement is silent on leasing it, but once its stream ends the pool closes it
+		{"lease vs completion on a connection marked by Shutdown (unlimited)", Cfg{0, 0}, []string{"new", "reply:0", "shutdown", "new"}, [][]string{{"reply:1"}, {"new"}}},
+	}
+	if goAwayInReply {
+		out = append(out, Scenario{"lease vs response announcing go-away (max 2)", Cfg{2, 0}, []string{"new"}, [][]string{{"reply+goaway:0"}, {"new"}}})
+	} else {
+		out = append(out, Scenario{"lease vs completion on a connection that announced go-away (max 2)", Cfg{2, 0}, []string{"new", "goaway:0"}, [][]string{{"reply:0"}, {"new"}}})
+	}
+	return out
+}
+
 // newStreamSched is NewStream + request under the scheduler: the connection is the one the pool
 // recorded in the request context; the stream is registered in the model as soon as NewStream returned.
 func (w *world) newStreamSched() string {
@@ -134,8 +153,16 @@ func (w *world) newStreamSched() string {
 		w.lease = append(w.lease, finding{"pool=" + pn + " I1 connection leased while it still carries an in-flight stream",
 			fmt.Sprintf("NewStream put a stream on connection %d which already carries %d in-flight stream(s)", s.c.idx, n)})
 	}
-	// (a connection found closed right after the lease is not judged here: the peer may have closed
-	// it while NewStream was running; leasing a connection that was closed before is the BFS's business)
+	// I2 under concurrency: a connection that was told to close while it carried a stream (local
+	// reset / timeout, go-away) could not be leased by anybody else at that moment, so a lease that
+	// the model sees afterwards is a reuse of a doomed connection in every interleaving.
+	if s.c.doomed && !w.shutdown {
+		for _, t := range s.c.taints {
+			w.lease = append(w.lease, finding{"pool=" + pn + " I2 connection leased again after " + t,
+				fmt.Sprintf("NewStream put a stream on connection %d, which was told to close (%s) while it carried a stream: it had to be closed, not handed out again", s.c.idx, t)})
+		}
+	}
+	// (a connection found closed right after the lease is judged below only if the POOL closed it)
 	s.ord = len(w.streams)
 	w.streams = append(w.streams, s)
 	sender.GetStream().AddEventListener(s)
@@ -147,6 +174,12 @@ func (w *world) newStreamSched() string {
 	if len(s.req) == 0 {
 		// the connection was closed under the lease: the stream layer resets the stream itself
 		s.ended, s.endCause = true, "send-failed"
+		if !s.c.envClosed && !w.envMayClose {
+			// neither the peer nor a concurrent pool Close/Shutdown closed it: the pool handed out a
+			// connection it was itself about to close - the request fails although the upstream is healthy
+			w.lease = append(w.lease, finding{"pool=" + pn + " I2 request placed on a connection the pool itself closes (request fails although the upstream is healthy)",
+				fmt.Sprintf("NewStream returned a stream on connection %d; before the request could be written the pool closed that connection (taints %v); nobody else closed it", s.c.idx, s.c.taints)})
+		}
 		return "ok-but-unsendable"
 	}
 	return "ok"
@@ -189,7 +222,11 @@ func schedBody(d Driver, sc Scenario, obs *schedObs) {
 				}
 				// an event whose object is gone by now is skipped (e.g. close of an already closed connection)
 				switch name {
-				case "reply":
+				case "shutdown", "close":
+					w.envMayClose = true // from now on the pool may close idle connections on the environment's behalf
+				}
+				switch name {
+				case "reply", "reply+goaway", "lreset":
 					if arg >= len(w.streams) || w.streams[arg].ended {
 						outs[i] = append(outs[i], name+"->skipped")
 						continue
